@@ -166,13 +166,18 @@ func runCheck(o checkOpts) int {
 	dischargeAll(obls, tmp, budget, all, 16)
 
 	if o.verbose {
+		for _, vc := range vcs {
+			if len(vc.abstracted) > 0 || len(vc.unsupported) > 0 || len(vc.warnings) > 0 {
+				fmt.Printf("  [%s] abstracted=%v unsupported=%v warnings=%v\n", vc.fnName(), vc.abstracted, vc.unsupported, vc.warnings)
+			}
+		}
 		for _, ob := range obls {
 			fmt.Printf("  %-8s %-10s %6.2fs %s\n", ob.Status, backendOf(ob), ob.TimeS, ob.Name)
 		}
 	}
 	// classify
 	byName := map[string]*Obligation{}
-	nCanary, nDischarged, nClaimed := 0, 0, 0
+	nCanary, nDischarged, nClaimed, nCanaryInconclusive := 0, 0, 0, 0
 	byBackend := map[string]int{}
 	byKind := map[string]int{}
 	solverTime := 0.0
@@ -183,8 +188,12 @@ func runCheck(o checkOpts) int {
 		solverTime += ob.TimeS
 		if ob.Canary {
 			nCanary++
-			if ob.Status != "sat" {
-				fails = append(fails, failure{o: ob, reason: "vacuity canary not reachable (status " + ob.Status + "): preconditions or invariant contradictory"})
+			switch ob.Status {
+			case "sat":
+			case "unsat":
+				fails = append(fails, failure{o: ob, reason: "vacuity canary refuted: the assumptions at this point (preconditions / loop invariant) are contradictory or the point is unreachable"})
+			default:
+				nCanaryInconclusive++
 			}
 			continue
 		}
@@ -346,6 +355,20 @@ func runCheck(o checkOpts) int {
 		}
 	}
 	sort.Strings(unsupported)
+	var assumedClauses []string
+	for name := range called {
+		if fc := c.cf.Funcs[name]; fc != nil {
+			for _, cl := range fc.Clauses {
+				if cl.Assumed {
+					assumedClauses = append(assumedClauses, fmt.Sprintf("%s: assume %s %s %s", name, cl.Kind, cl.Label, cl.Expr))
+				}
+			}
+			if fc.has("trusted") {
+				assumedClauses = append(assumedClauses, name+": whole contract trusted (not verified against the body)")
+			}
+		}
+	}
+	sort.Strings(assumedClauses)
 	ev := map[string]interface{}{
 		"property_id": prop, "tier": o.tier, "seed": o.seed, "level": "proof",
 		"wall_s": round3(time.Since(start).Seconds()), "violations": violations,
@@ -357,10 +380,11 @@ func runCheck(o checkOpts) int {
 			"functions_under_contract": fnames,
 			"trusted_contracts_not_verified": trusted,
 			"obligations_by_kind": byKind, "discharged_by_backend": byBackend,
-			"solver_time_s": round3(solverTime), "vacuity_canaries_checked": nCanary,
+			"solver_time_s": round3(solverTime), "vacuity_canaries_checked": nCanary, "vacuity_canaries_inconclusive": nCanaryInconclusive,
 			"abstracted_calls_havoc_everything": abstracted,
 			"assumed_dependency_calls": externals,
 			"callee_contracts_used": called,
+			"assumed_contract_clauses_used": assumedClauses,
 			"constructs_outside_modelled_subset": unsupported,
 			"known_findings_reported": kfLines,
 			"scan": scanInfo,
